@@ -43,7 +43,8 @@ RefsTo(items, live) == {ByH(h) : h \in live} \cup {ById(items[h].id) : h \in {x 
 ResRefs == RefsTo(st.res, LiveRes(st)) \cup (IF Scenario = "remove" THEN {ByTemp("R", h - 1) : h \in LiveRes(st)} ELSE {})
 SetRefs == RefsTo(st.sets, LiveSets(st)) \cup (IF Scenario = "remove" THEN {ByTemp("S", h - 1) : h \in LiveSets(st)} ELSE {})
 \* (removals also address items through their temporary identifier, whether or not they have a public one)
-AnnRefs == {ByH(h) : h \in LiveAnns(st)} \cup (IF Scenario = "remove" THEN {ByTemp("A", h - 1) : h \in LiveAnns(st)} ELSE {})
+AnnRefs == {ByH(h) : h \in LiveAnns(st)} \cup (IF Scenario = "tempish" THEN {ById(st.anns[h].id) : h \in {x \in LiveAnns(st) : st.anns[x].id # ""}} ELSE {})
+           \cup (IF Scenario = "remove" THEN {ByTemp("A", h - 1) : h \in LiveAnns(st)} ELSE {})
 
 OffMenu == IF Small THEN {Off("B", 0, "B", 1), Off("B", 0, "E", 0)}
            ELSE {Off("B", 0, "B", 1), Off("B", 1, "B", 2), Off("B", 0, "E", 0), Off("E", -1, "E", 0), Off("B", 2, "B", 2)}
@@ -106,9 +107,19 @@ RelatedTargets ==
     UNION {{TB("Text", ByH(r), NoRef, Off("B", x[1], "B", x[2])) :
               x \in {y \in RangesOf(Len(st.res[r].text)) : \A i \in DOMAIN st.res[r].tsel : RangeBefore(st.res[r].tsel[i], y)}} : r \in LiveRes(st)}
 
+\* C01: complex selectors over annotations with relative offsets (whole as 0..len, whole as begin..end-aligned 0, parts)
+RelSubOffs(x) == LET len == AnnTextLen1(x) IN {Off("B", 0, "B", len), Off("B", 0, "B", 1), Off("B", 1, "B", len), Off("B", 0, "E", 0)}
+RelComplexTargets ==
+    LET A == {y \in LiveAnns(st) : HasSingleText(st.anns[y])}
+        Subs(x) == {TB("Ann", ByH(x), NoRef, o) : o \in RelSubOffs(x)}
+        K == {"Multi", "Composite", "Directional"}
+    IN UNION {UNION {{Complex(k, <<sx, sy>>) : k \in K, sx \in Subs(x), sy \in Subs(y)} : y \in A \ {x}} : x \in A}
+       \cup UNION {UNION {UNION {{Complex(k, <<sx, sy, sz>>) : k \in K, sx \in Subs(x), sy \in Subs(y), sz \in Subs(z)} :
+                                   z \in {w \in A : w = y + 1}} : y \in {w \in A : w = x + 1}} : x \in A}
 AnnotateMenu ==
     CASE Scenario = "related" -> {[id |-> "", target |-> t, data |-> <<>>] : t \in RelatedTargets}
       [] Scenario = "offsets" -> {[id |-> "", target |-> t, data |-> <<>>] : t \in OffsetTargets}
+      [] Scenario = "complexrel" -> {[id |-> "", target |-> t, data |-> <<>>] : t \in RelComplexTargets}
       [] Scenario = "core" ->
            {[id |-> i, target |-> t, data |-> d] : i \in AnnIds, t \in SimpleTargets, d \in DataMenu}
       [] Scenario = "complex" ->
@@ -211,6 +222,26 @@ PreludeOps ==
                               ann("S1", dir(<<t("r1", 1, 5), t("r3", 0, 4)>>), <<>>),
                               ann("w1", t("r1", 1, 2), d3),
                               ann("w2", dir(<<t("r1", 2, 4), t("r1", 6, 7)>>), d3)>>
+         \* 13: three overlapping annotations with consecutive handles on a five-character text (material for complex
+         \*     selectors over annotations with relative offsets, which the library range-compresses)
+         [] Prelude = 13 -> <<[ev |-> "AddResource", a |-> [id |-> "r1", text |-> <<11, 12, 13, 14, 21>>]], addset,
+                              ann("a1", txt(0, 3), <<>>), ann("a2", txt(1, 4), <<>>), ann("a3", txt(2, 5), <<>>)>>
+         \* 14: annotations that list the same data item twice (and a third one on top of the first)
+         [] Prelude = 14 -> <<addres, addset, ann("a1", txt(0, 1), d1 \o d1), ann("a2", txt(1, 2), d1 \o d2 \o d1),
+                              ann("a3", TB("Ann", ById("a1"), NoRef, NoOffset), d2 \o d2), ann("", txt(0, 1), d2)>>
+         \* 15: public identifiers that begin like a temporary identifier of their own kind but are not one
+         [] Prelude = 15 -> <<[ev |-> "AddResource", a |-> [id |-> "!Rx", text |-> <<11, 12, 21>>]], addres,
+                              [ev |-> "AddDataset", a |-> [id |-> "!Sx"]], addset,
+                              ann("!Ax", TB("Text", ById("!Rx"), NoRef, Off("B", 0, "B", 1)),
+                                  <<DB(ById("!Sx"), ById("!Kx"), ById("!Dx"), StrVal("v1"))>>),
+                              ann("a1", txt(0, 1), d1),
+                              ann("!A", TB("Ann", ById("!Ax"), NoRef, NoOffset), <<DB(ById("!Sx"), ById("!Kx"), NoRef, StrVal("v2"))>>)>>
+         \* 16: two resources with different text and annotations at the same offsets (same per-resource selection handles)
+         [] Prelude = 16 -> <<[ev |-> "AddResource", a |-> [id |-> "r1", text |-> <<11, 12, 13, 14, 21>>]],
+                              [ev |-> "AddResource", a |-> [id |-> "r2", text |-> <<21, 22, 23, 24, 31>>]], addset,
+                              ann("a1", txt(0, 2), d1), ann("a2", TB("Text", ById("r2"), NoRef, Off("B", 0, "B", 2)), d1),
+                              ann("a3", txt(1, 3), <<>>), ann("a4", TB("Text", ById("r2"), NoRef, Off("B", 1, "B", 3)), <<>>),
+                              ann("a5", TB("Text", ById("r2"), NoRef, Off("B", 0, "B", 2)), d2)>>
          \* 6: metadata annotations on keys/data/sets and annotations on annotations (chain + relative offset)
          [] OTHER -> <<addres, addset, ann("a1", txt(0, 2), d1),
                        ann("", TB("Key", ById("s1"), ById("k1"), NoOffset), <<>>),
@@ -231,14 +262,14 @@ Step(ev, a) ==
     /\ st' = ApplyAny(st, ev, a).st
     /\ hist' = Append(hist, [ev |-> ev, a |-> a])
 
-Building == Scenario \notin {"remove", "protect", "transpose", "batch"}
+Building == Scenario \notin {"remove", "protect", "transpose", "batch", "tempish"}
 \* tuning steps do not change the specification state, so they are only worth generating when histories are emitted
 Tuning == ~EmitAll
-Adding == Scenario \notin {"remove", "offsets", "related", "textops", "batch"}
+Adding == Scenario \notin {"remove", "offsets", "related", "textops", "batch", "tempish", "complexrel"}
 \* C07: one resource per behaviour, over every text up to P1 characters of the alphabet selected by P2
 TextAlphabet == CASE P2 = 1 -> {11, 41, 12} [] P2 = 2 -> {11, 22, 32} [] P2 = 3 -> {11, 31, 21} [] OTHER -> {11, 14, 41}
 
-Removing == Scenario \in {"all", "remove", "core"}
+Removing == Scenario \in {"all", "remove", "core", "tempish"}
 \* C18: after protecting, every annotation that selects text validates (a law of the specification itself)
 \* C16: every transposition in the store links piecewise identical text (also the ones transpose() returns)
 InvTranspositions == TranspositionsLinkIdenticalText(st)
@@ -266,6 +297,11 @@ Next ==
     \/ Scenario = "transpose" /\ \E r \in LiveRes(st) : \E x \in RangesOf(Len(st.res[r].text)) :
           x[1] < x[2] /\ (\A y \in LiveAnns(st) : st.anns[y].id # "src" \o ToString(r) \o ToString(x[1]) \o ToString(x[2])) /\
           Step("Annotate", [id |-> "src" \o ToString(r) \o ToString(x[1]) \o ToString(x[2]), target |-> TB("Text", ByH(r), NoRef, Off("B", x[1], "B", x[2])), data |-> <<>>])
+    \* C03: a second item with an identifier that looks like a temporary one must be rejected like any duplicate
+    \/ Scenario = "tempish" /\ \E i \in {"!Rx", "!R", "r1"}, t \in {<<11, 12, 21>>, <<13, 11>>} : Step("AddResource", [id |-> i, text |-> t])
+    \/ Scenario = "tempish" /\ \E i \in {"!Sx", "!S"} : Step("AddDataset", [id |-> i])
+    \/ Scenario = "tempish" /\ \E i \in {"!Ax", "!A", "!Ay"}, r \in {"!Rx", "r1"} :
+          Step("Annotate", [id |-> i, target |-> TB("Text", ById(r), NoRef, Off("B", 1, "B", 2)), data |-> <<DB(ById("!Sx"), ById("!Kx"), ById("!Dx"), StrVal("v1"))>>])
     \/ Scenario = "batch" /\ \E items \in Batches, via \in {"iter", "file"} : Step("AnnotateBatch", [items |-> items, via |-> via])
     \/ Scenario \in {"all", "protect"} /\ \E m \in {"checksum", "text", "both", "auto"} : Step("ProtectText", [mode |-> m])
     \/ Scenario \in {"all", "offsets"} /\ Tuning /\ Step("ShrinkToFit", [x |-> 0])
@@ -313,6 +349,9 @@ Cont(on, res, b, e, ann) == [on |-> on, res |-> res, b |-> b, e |-> e, ann |-> a
 
 LookupOps ==
     LET ids == {"r1", "r2", "s1", "a1", "a2", "a5", "k1", "k2", "d1", "nope"}
+               \* identifiers that begin like temporary ones (of their own and of other kinds) without being one
+               \cup (IF Scenario = "tempish" THEN {"!Rx", "!R", "!Sx", "!S", "!Ax", "!A", "!Ay", "!Kx", "!Dx", "!Xx"} ELSE {})
+        subids == {"k1", "k2", "d1", "nope"} \cup (IF Scenario = "tempish" THEN {"!Kx", "!Dx", "!K", "!Ax"} ELSE {})
         top == {"res", "set", "ann"}
         n(k) == CASE k = "res" -> Len(st.res) [] k = "set" -> Len(st.sets) [] OTHER -> Len(st.anns)
     IN {RO("Lookup", [kind |-> k, ref |-> ById(i), set |-> NoRef]) : k \in top, i \in ids}
@@ -320,7 +359,7 @@ LookupOps ==
        \cup UNION {{RO("Lookup", [kind |-> k, ref |-> ByTemp(tl, tn), set |-> NoRef]) : tl \in {"A", "R", "S", "K", "X"}, tn \in 0..n(k)} : k \in top}
        \cup UNION {{RO("Lookup", [kind |-> k, ref |-> r, set |-> ByH(s)]) :
                        k \in {"key", "data"},
-                       r \in {ById(i) : i \in {"k1", "k2", "d1", "nope"}} \cup {ByH(h) : h \in 1..3} \cup {ByTemp(tl, tn) : tl \in {"K", "D", "A"}, tn \in 0..2}} : s \in LiveSets(st)}
+                       r \in {ById(i) : i \in subids} \cup {ByH(h) : h \in 1..3} \cup {ByTemp(tl, tn) : tl \in {"K", "D", "A"}, tn \in 0..2}} : s \in LiveSets(st)}
 
 Cursors(len) == {<<"B", v>> : v \in 0..(len + 1)} \cup {<<"E", -v>> : v \in 0..(len + 1)} \cup {<<"E", 1>>}
 OffsOver(len) == {Off(b[1], b[2], e[1], e[2]) : b \in Cursors(len), e \in Cursors(len)}
